@@ -62,6 +62,20 @@ def run_case(world, prop, monitor, extra_monitors=(), key_fn=None, nontrivial_fn
         R2 = execute(world, problem=R.problem, solver=R.solver)
         execs += 1
         runs.append(("resolved", R2, world))
+    if (world.get("case") or {}).get("foreign") and R.trials and (only is None or only == {"variant": "foreign"}):
+        # two solver objects in one process: an observer stays registered on the first one while the
+        # second one (its own problem object, same data) solves.  Each solver's steps must be announced
+        # to its own observers only.
+        from .common import V
+
+        A = execute(world, keep_callbacks=True)
+        nA = len(A.cbs)
+        B = execute(world)
+        execs += 2
+        bump("foreign.pairs")
+        runs.append(("foreign", B, world))
+        if A.foreign_cbs or len(A.cbs) != nA:
+            viol.append(V(prop, "callback-foreign", "an observer registered on one solver object was told about %d step computations of another solver object" % (A.foreign_cbs + len(A.cbs) - nA), {"variant": "foreign"}, {"knobs": knob_key(world), "variant": "foreign"}))
     for (name, ex, w) in runs:
         sub = {"variant": name}
         if only is not None and only != sub:
